@@ -2,7 +2,8 @@ SPECIFICATION MCSpec
 CONSTANTS
   Groups = {"g1","g2"}
   Names = {"s1","s2"}
-  Dev = {}
+  Dev = {"MemRollbackStealsNostrId","MemOffsetOverflows"}
+  KnownFinding <- Silent
   Cap = 0
   MaxLimit = 10000
   DefLimit = 1000
@@ -38,6 +39,6 @@ CONSTANTS
   Subs = {"abc"}
 VIEW MCView
 INVARIANT TypeInv
-INVARIANT InvC10Plain
-PROPERTY PropC09Plain
+INVARIANT InvC10
+PROPERTY PropC09
 CHECK_DEADLOCK FALSE
